@@ -1,6 +1,6 @@
 SPECIFICATION HSpec
 CONSTANTS
-  Paths = {"a", "b", "c"}
+  Paths = {"a", "b", "c", "d"}
   Contents = {"x", "y", "z"}
   Canonical = TRUE
   MaxOps = 5
